@@ -1734,6 +1734,38 @@ impl Check for C19 {
             }];
             ctx.eval(&p);
         }
+        if job % 4 == 1 {
+            // the same ending over a real socket, through `run_on_tcp`: the client sends the
+            // first k bytes of its script, half-closes and goes on reading. The entry point must
+            // return what `run_on` returns for an end of stream at that byte (rule `tcp-differs`).
+            let mut q = base.clone();
+            q.reads = ReadSched::all();
+            q.arrival = Arrival::upfront();
+            q.writes = WriteSched::all();
+            q.cfg.tcp_diff = true;
+            let (hdrs, total) = header_offsets(&base);
+            let mut cuts: Vec<u64> = vec![0, 2, total];
+            if hdrs.len() >= 2 {
+                cuts.push(hdrs[1]); // right behind the handshake response
+                cuts.push(hdrs[1] - 1);
+                let h = hdrs[1 + rng.usize_below(hdrs.len() - 1)];
+                cuts.push(h); // a command boundary
+                cuts.push((h + 1 + rng.below(5)).min(total)); // inside a header or a payload
+            }
+            cuts.sort_unstable();
+            cuts.dedup();
+            for k in cuts {
+                q.faults = vec![Fault {
+                    at: FaultAt::ClientByte(k),
+                    kind: FaultKind::Eof,
+                    persistent: true,
+                }];
+                if crate::tcpdiff::eligible(&q) {
+                    ctx.stats.bump("probe.tcp_half_closing_clients", 1);
+                    ctx.eval(&q);
+                }
+            }
+        }
     }
     fn owns(&self, rule: &str) -> bool {
         // callback-args / callback-extra: under a fault the callbacks that do happen must still
